@@ -128,6 +128,7 @@ class Engine:
         self.stop_after = None
         self.stop_fired = False
         self.opaque = {}
+        self.allow_unordered = False
 
     # ------------------------------------------------------------------ utilities
     def oblige(self, kind, st, goal, note="", extra=None, oid=None):
@@ -633,6 +634,18 @@ class Engine:
                     return [(st.alloc(HList(ha.items + hb.items)), st)]
             if {ta, tb} <= {"str", "int", "bool", "NoneType"} and ta != tb and "str" in (ta, tb):
                 return [(Raise(Exc("TypeError", "str + non-str")), st)]
+        if isinstance(op, (ast.BitAnd, ast.BitOr, ast.Sub)) and isinstance(a, Ref) and isinstance(b, Ref):
+            ha, hb = st.heap[a.oid], st.heap[b.oid]
+            if isinstance(ha, HList) and isinstance(hb, HList) and getattr(ha, "is_keys", False) and getattr(hb, "is_keys", False):
+                if isinstance(op, ast.BitAnd):
+                    items = [x for x in ha.items if x in hb.items]
+                elif isinstance(op, ast.Sub):
+                    items = [x for x in ha.items if x not in hb.items]
+                else:
+                    items = list(ha.items) + [x for x in hb.items if x not in ha.items]
+                r = HList(items)
+                r.unordered = True
+                return [(st.alloc(r), st)]
         if isinstance(op, ast.Sub) and ta in ("int", "bool") and tb in ("int", "bool"):
             return [(Sym(self._num(a) - self._num(b), "int"), st)]
         if isinstance(op, ast.Mult) and ta in ("int", "bool") and tb in ("int", "bool"):
@@ -1018,6 +1031,8 @@ class Engine:
         if isinstance(v, Ref):
             h = st.heap[v.oid]
             if isinstance(h, HList):
+                if getattr(h, "unordered", False) and not self.allow_unordered:
+                    raise Unsupported("ordered iteration over a set (no order-independence obligation covers it)")
                 return list(h.items)
             if isinstance(h, HDict):
                 if any(h.pres[k] is not True for k in h.keys):
@@ -1025,6 +1040,8 @@ class Engine:
                 return list(h.keys)
         if isinstance(v, Const):
             if isinstance(v.obj, (frozenset, set)):
+                if self.allow_unordered:
+                    return [self.lift(x) for x in sorted(v.obj, key=repr)]
                 raise Unsupported("ordered iteration over a set")
             return [self.lift(x) for x in v.obj]
         raise Unsupported("iteration over %r" % (v,))
